@@ -375,6 +375,8 @@ def gen_dag(rng, P=None, n=None):
         inputs["n"] = rng.randint(0, 2)
     if rng.random() < 0.5:
         inputs["k"] = rng.randint(1, 3)
+    elif rng.random() < P.get("p_nonpos_k", 0.15):
+        inputs["k"] = rng.choice([0, -1, -2])  # concurrency <= 0 is documented to mean 1
     _tag(m)
     return m, inputs
 
@@ -445,7 +447,10 @@ def gen_loop(rng, P=None):
         for nm in ("rep", "arch"):
             m.tasks[nm] = Task(nm)
         last.trans[0].do = list(last.trans[0].do) + ["rep"]
-        last.trans[1].do = [d for d in last.trans[1].do if d != "noop"] + ["rep"]
+        if rng.random() >= P.get("p_loop_fork_single", 0.0):
+            last.trans[1].do = [d for d in last.trans[1].do if d != "noop"] + ["rep"]
+        else:
+            m.tags.add("loop_fork_single")  # the outside task has a single inbound transition: every pass shares its route
         m.tasks["rep"].trans.append(Tr(0, cond=rng.choice([("succeeded",), None]), lang=rng.choice(P["langs"]),
                                        pubs=[("z", ("cat", "z", "|rep"))] if rng.random() < 0.5 else [], do=["arch"]))
         m.tags.add("loop_fork")
@@ -461,7 +466,7 @@ def gen_loop(rng, P=None):
 
 
 def _tag(m):
-    tags = set(t for t in m.tags if t in ("latevar", "loop", "loop_join", "loop_fork"))
+    tags = set(t for t in m.tags if t in ("latevar", "loop", "loop_join", "loop_fork", "loop_fork_single"))
     for t in m.tasks.values():
         if t.join is not None:
             tags.add("join")
